@@ -185,7 +185,10 @@ def oracle_similarity(rng, n, R):
                     ok = float(v.abs().max()) <= 1e-12
                 else:
                     # eps / (b^2 + eps) in [0, 1]: zero up to eps wherever the window is not flat
-                    ok = bool((v >= -tol).all()) and bool((v <= 1 + tol).all()) and (eps > 1e-6 or float(v.abs().median()) <= 1e-4)
+                    # (exactly 1 where the centred window is flat, e.g. windows of a single sample)
+                    u = v if mm is None else None
+                    ok = bool((v >= -tol).all()) and bool((v <= 1 + tol).all()) and \
+                        (eps > 1e-6 or u is None or bool((torch.minimum(u.abs(), (u - 1).abs()) <= 1e-4).all()))
                 if not ok:
                     R.fail(f"C16:{name}:identical-nonzero", f"loss of identical inputs is {float(v.abs().max()):.3g} ({tag})", **base)
             # ---- symmetry
